@@ -125,7 +125,19 @@ func randomBehaviour(rnd *rand.Rand) []map[string]any {
 		}
 		return m("kind", "ins", "chain", kch[rnd.Intn(2)], "pos", []int{0, 9}[rnd.Intn(2)], "rule", foreign())
 	}
-	if rnd.Intn(5) < 3 {
+	if rnd.Intn(6) == 0 {
+		// a force-programmed parent that only references a child, later removed
+		rb := bodySeq(9, 2)
+		ra := append(bodySeq(9, 1), m("id", 1+rnd.Intn(6), "tgt", "cali-b"))
+		des["cali-b"], des["cali-a"] = rb, ra
+		beh = append(beh, m("op", "set_chain", "name", "cali-b", "rules", rb), m("op", "set_chain", "name", "cali-a", "rules", ra, "force", true),
+			m("op", "apply", "fw", 0, "fr", 0, "pre", "none", "prefail", false))
+		if rnd.Intn(2) == 0 {
+			beh = append(beh, m("op", "tick"))
+		}
+		delete(des, "cali-a")
+		beh = append(beh, m("op", "remove_chain", "name", "cali-a"), m("op", "apply", "fw", 0, "fr", 0, "pre", "none", "prefail", false))
+	} else if rnd.Intn(5) < 3 {
 		// scenario mode: first bring a referenced chain structure into the kernel, so that the rest of the
 		// history (edits, tweaks, failures) acts on a converged table
 		rb := bodySeq(9, 3)
@@ -145,7 +157,7 @@ func randomBehaviour(rnd *rand.Rand) []map[string]any {
 			name := fchains[rnd.Intn(3)]
 			rs := bodySeq(level[name], 4)
 			des[name] = rs
-			beh = append(beh, m("op", "set_chain", "name", name, "rules", rs))
+			beh = append(beh, m("op", "set_chain", "name", name, "rules", rs, "force", rnd.Intn(6) == 0))
 		case c < 5:
 			name := fchains[rnd.Intn(3)]
 			if _, ok := des[name]; ok {
